@@ -13,6 +13,8 @@ OPS = {
     'consts': 1, 'get_root_of_unity': 2, 'new': 3, 'compute_size': 4,
     'fft': 6, 'ifft': 7, 'element': 8, 'elements': 9, 'vanishing': 10, 'lagrange': 11,
     'interpolate': 12, 'fft_naive': 13,
+    # extension 3: the rest of the trait surface
+    'reindex': 14, 'filter': 15, 'mul_evals': 16, 'sample_outside': 17, 'distribute': 18, 'bitrev_perm': 19,
 }
 
 # cfg_id -> (name, p, multiplicative generator, small_subgroup_base, small_subgroup_power)
@@ -132,8 +134,15 @@ def offsets_for(rng, f, n):
     """(offset arg, class): none, 1 (get_coset(1)), multiplicative generator, a domain element, random"""
     p = f.p
     w = f.gen_of(n)
-    return [([], 'subgroup'), ([1], 'offset1'), ([f.g], 'offset_gen'),
-            ([pow(w, rng.randrange(n), p)], 'offset_in_domain'), ([rng.randrange(1, p)], 'offset_rand')]
+    offs = [([], 'subgroup'), ([1], 'offset1'), ([f.g], 'offset_gen'), ([rng.randrange(1, p)], 'offset_rand')]
+    if n >= 2:
+        # offset^n = 1 but offset != 1: the coset IS the subgroup, rotated.  `offset.is_one()` must not be
+        # replaced by `offset_pow_size.is_one()` (seeded change 6): ifft still has to un-rotate
+        offs.append(([pow(w, rng.randrange(1, n), p)], 'offset_in_subgroup'))
+        offs.append(([pow(w, n // 2 if n % 2 == 0 else 1, p)], 'offset_in_subgroup_-1_or_gen'))
+    else:
+        offs.append(([1], 'offset_in_subgroup'))
+    return offs
 
 
 def domain_points(rng, f, n, off):
@@ -333,6 +342,134 @@ def gen(rng, tier):
                         yield 'lagrange', head + [[tau]], 'lagrange/%s/%s' % (oc, tc)
 
 
+    for c in gen_ext3(rng, tier):
+        yield c
+
+
+def divisors_in(sizes, n):
+    return [m for m in sizes if n % m == 0]
+
+
+def outside_point(rng, f, n, h):
+    """a field element outside the coset h*<w_n> (input selection only)"""
+    p = f.p
+    hi = pow(h, -1, p)
+    while True:
+        t = rng.randrange(1, p)
+        if pow(t * hi % p, n, p) != 1:
+            return t
+
+
+def gen_ext3(rng, tier):
+    """reindex_by_subdomain, filter polynomial, pointwise product, sampling outside, distribute_powers,
+    bitreverse_permutation_in_place"""
+    thorough = tier != 'quick'
+    maxlog_toy = 11 if thorough else 9
+    # ---------------- reindex_by_subdomain: every (G, S) pair of every toy field, every index ----------------
+    for cid in TOY:
+        f = FL[cid]
+        r2 = f.radix2_sizes(maxlog_toy)
+        for kind in (0, 1, 2):
+            if kind == 1 and not f.q:
+                continue
+            sizes = r2 if (kind == 0 or not f.q) else f.mixed_sizes(1 << 62)
+            for n in sizes:
+                for m in divisors_in(sizes, n):
+                    # branches: index < |S| -> index * period; else i + i / (period - 1) + 1.  period = |G| / |S|
+                    # is NOT 2^(log difference) for mixed-radix domains whose q-parts differ (seeded change 7)
+                    qdiff = 'same_qpart' if not f.q or (n // m) & ((n // m) - 1) == 0 else 'qpart_differs'
+                    yield 'reindex', f.head() + [[kind, n], [], [m]], 'reindex/all/kind%d/%s/%s' % (kind, qdiff, 'S=G' if m == n else ('S=1' if m == 1 else 'proper'))
+            # cosets (the subdomain gets the same offset): element(reindex(i)) = subdomain.element(i) there too
+            for n in sizes[-4:] + sizes[:3]:
+                for m in divisors_in(sizes, n)[::2]:
+                    yield 'reindex', f.head() + [[kind, n], [rng.randrange(1, f.p)], [m]], 'reindex/coset/kind%d' % kind
+    for cid in BIG:
+        f = FL[cid]
+        for kind in (0, 1, 2):
+            if kind == 1 and not f.q:
+                continue
+            r2 = f.radix2_sizes(12)
+            sizes = r2 if (kind == 0 or not f.q) else f.mixed_sizes(1 << 12)
+            for n in sizes:
+                for m in divisors_in(sizes, n):
+                    if n <= 48:
+                        yield 'reindex', f.head() + [[kind, n], [], [m]], 'reindex/big/all/kind%d' % kind
+                    elif rng.randrange(3) == 0 or thorough:
+                        idx = sorted({0, 1, m - 1, m % n, (m + 1) % n, n - 1, rng.randrange(n), rng.randrange(n),
+                                      min(n - 1, m + (n // m - 1)), min(n - 1, m + (n // m - 1) - 1 if n // m > 1 else 0)})
+                        yield 'reindex', f.head() + [[kind, n], [], [m] + idx], 'reindex/big/some/kind%d' % kind
+
+    # ---------------- filter_polynomial / evaluate_filter_polynomial ----------------
+    def filter_cases(f, kind, sizes, n, m, reps):
+        p = f.p
+        wG = f.gen_of(n)
+        wS = f.gen_of(m)
+        per = n // m
+        for _ in range(reps):
+            # G: the subgroup, or rotated by an element of G (offset^|G| = 1).
+            # DEFECT-2 (NOTES.md): for a domain with offset^|G| != 1 filter_polynomial is not normalised
+            # (its value on the subdomain is offset^|G|, evaluate_filter_polynomial says 1): not generated
+            for offG, gc in (([], 'G_subgroup'), ([pow(wG, rng.randrange(1, n), p)] if n > 1 else [1], 'G_rotated')):
+                js = {0, 1 % per, rng.randrange(per), rng.randrange(n)}
+                for j in sorted(js):
+                    hS = pow(wG, j, p)
+                    c = pow(hS, m, p)
+                    sc = 'S_subgroup' if hS == 1 else ('S_coset_c=1' if c == 1 else 'S_coset')
+                    taus = [(hS * pow(wS, rng.randrange(m), p) % p, 'tau_in_S'), (hS, 'tau=S0'),
+                            (pow(wG, rng.randrange(n), p), 'tau_in_G'), (1, 'tau=1')]
+                    if c == 1:
+                        taus += [(0, 'tau=0'), (outside_point(rng, f, n, 1), 'tau_outside_G'), (rng.randrange(p), 'tau_rand')]
+                    # else: DEFECT-1 (NOTES.md): evaluate_filter_polynomial omits the factor offset_S^|S| when the
+                    # subdomain is a proper coset (offset_S^|S| != 1) and tau is outside G: those points not generated
+                    for tau, tc in taus:
+                        if c != 1 and pow(tau, n, p) != 1:
+                            continue   # DEFECT-1
+                        yield 'filter', f.head() + [[kind, n], offG, [m, hS, tau]], 'filter/kind%d/%s/%s/%s' % (kind, gc, sc, tc)
+    for cid in TOY + BIG:
+        f = FL[cid]
+        top = (256 if thorough else 64) if cid in TOY else 32
+        for kind in (0, 1, 2):
+            if kind == 1 and not f.q:
+                continue
+            r2 = f.radix2_sizes(8)
+            sizes = [x for x in (r2 if (kind == 0 or not f.q) else f.mixed_sizes(top)) if x <= top]
+            if kind == 2 and f.q:
+                sizes = [x for x in sizes if x & (x - 1) or x > (1 << f.s)] + [1, 2, 4]
+                sizes = sorted(set(x for x in sizes if x <= top and (x & (x - 1) or x <= (1 << f.s))))
+            for n in sizes:
+                for m in divisors_in(sizes, n):
+                    for c in filter_cases(f, kind, sizes, n, m, 2 if (thorough and cid in TOY) else 1):
+                        yield c
+
+    # ---------------- mul_polynomials_in_evaluation_domain, sample_element_outside_domain, distribute_powers ----------------
+    for cid, f in FL.items():
+        p = f.p
+        ss = [(n, k) for n in f.radix2_sizes(6) for k in (0, 2)]
+        if f.q:
+            ss += [(n, 1) for n in f.mixed_sizes(100)]
+        for (n, kind) in ss:
+            for ln in sorted({0, 1, n // 2, n, n + 3}):
+                x, xc = vec(rng, f, ln)
+                y, yc = vec(rng, f, ln)
+                yield 'mul_evals', f.head() + [[kind, n], [], x + y], 'mul_evals/%s*%s' % (xc, yc)
+            for off, oc in offsets_for(rng, f, n):
+                h = off[0] % p if off else 1
+                w = f.gen_of(n)
+                # model side: the first candidate with a non-zero vanishing value (candidates: two domain
+                # points, then a point outside); Rust side: whatever the seeded rng draws.  Compared: the
+                # result is not an element of the domain and its vanishing value is non-zero
+                cands = [h * pow(w, rng.randrange(n), p) % p, h, outside_point(rng, f, n, h)]
+                yield 'sample_outside', f.head() + [[kind, n], off, [rng.randrange(1 << 32)] + cands], 'sample_outside/%s' % oc
+        for ln in (0, 1, 2, 5, 33):
+            for g, gc in ((0, 'g=0'), (1, 'g=1'), (f.g, 'g=gen'), (rng.randrange(p), 'g_rand')):
+                for c, cc in ((0, 'c=0'), (1, 'c=1'), (rng.randrange(p), 'c_rand')):
+                    v, vc = vec(rng, f, ln)
+                    yield 'distribute', f.head() + [[0, 1], [], [g, c] + v], 'distribute/%s/%s' % (gc, cc)
+        for wd in range(0, 9 if thorough else 7):
+            v, vc = vec(rng, f, 1 << wd, 9)
+            yield 'bitrev_perm', f.head() + [[0, 1], [], [wd] + v], 'bitrev_perm/width%d' % wd
+
+
 def _size_hint(case):
     a = case['args']
     return a[3][1] if len(a) > 3 and len(a[3]) > 1 else 0
@@ -350,7 +487,7 @@ def xcheck_ok(case):
 
 def nontrivial(case, out):
     a = case['args']
-    if case['op'] in ('consts', 'get_root_of_unity', 'new', 'compute_size', 'elements', 'element'):
+    if case['op'] in ('consts', 'get_root_of_unity', 'new', 'compute_size', 'elements', 'element', 'reindex', 'sample_outside'):
         return True
     return len(a) > 5 and any(x != 0 for x in a[5])
 
